@@ -1,105 +1,18 @@
 /-
   Block-level lemmas cited by TopsimProps/C08, C12, C13.
+
+  * BlockLemmas1 — projections of the state helpers, `ObsMono`, the `Frame` relation
+  * BlockLemmas2 — `Frame` for every block of every process kind but the monitor
+  * BlockLemmas3 — from blocks to `resume`: `rows_only_monitor`, `status_monotone`,
+                   `events_no_loss`, `events_loop_clear`, `events_stamped`,
+                   `reach_rows_count`
+  * BlockLemmas4 — the admission block: `admission_guard`, `admission_on_time`,
+                   `arrays_step`, `finished_after_duration`; `provisionIngest_exact`;
+                   `row_true`, `row_available_true`
 -/
+import TopsimModel.Reach
+import TopsimProofs.ClusterSteps
 import TopsimProofs.BlockLemmas1
-
-namespace Topsim
-
-deriving instance DecidableEq for PK
-
-namespace Sys
-
-theorem admission_guard (now : Nat) (s s' : Sys) (oid : Oid) (o : Obs)
-    (ho : s.obs? oid = some o) (h : telescopeVisit now (s, none) oid = (s', none))
-    (hadm : s'.admitted ≠ s.admitted) :
-    o.est ≤ now ∧ o.status = .waiting ∧
-    (o.demand : Int) ≤ (s.totalArrays : Int) - s.telUse ∧
-    o.ingestDemand ≤ s.cl.available.length ∧
-    s.cl.ingest.length + o.ingestDemand ≤ s.maxIngest ∧
-    s.provIngest + o.ingestDemand ≤ s.maxIngest ∧
-    o.rate * o.duration ≤ s.buf.hot.cur ∧ o.rate * o.duration < s.buf.hot.total ∧
-    s.buf.coldHasCapacityFor (o.rate * o.duration) = true ∧
-    s'.admitted = s.admitted ++ [oid] ∧ s'.telUse = s.telUse + o.demand ∧
-    s'.provIngest = s.provIngest + o.ingestDemand := sorry
-
-theorem admission_on_time (now : Nat) (s : Sys) (oid : Oid) (o : Obs) (ho : s.obs? oid = some o)
-    (hdue : o.est ≤ now) (hw : o.status = .waiting)
-    (harr : (o.demand : Int) ≤ (s.totalArrays : Int) - s.telUse)
-    (hav : o.ingestDemand ≤ s.cl.available.length) (hlim : o.ingestDemand ≤ s.maxIngest)
-    (hing : s.cl.ingest.length + o.ingestDemand ≤ s.maxIngest)
-    (hprov : s.provIngest + o.ingestDemand ≤ s.maxIngest)
-    (hdur : 1 ≤ o.duration)
-    (hhot : o.rate * o.duration ≤ s.buf.hot.cur) (hcap : o.rate * o.duration < s.buf.hot.total)
-    (hcold : s.buf.coldHasCapacityFor (o.rate * o.duration) = true) :
-    ∃ s', telescopeVisit now (s, none) oid = (s', none) ∧ s'.admitted = s.admitted ++ [oid] ∧
-      (s'.obs? oid).map (·.ast) = some (some now) := sorry
-
-theorem arrays_step (now : Nat) (s s' : Sys) (oid : Oid) (e : Option Err)
-    (h : telescopeVisit now (s, none) oid = (s', e))
-    (hb : 0 ≤ s.telUse ∧ s.telUse ≤ s.totalArrays)
-    (hfin : ∀ o, s.obs? oid = some o → o.isFinishedAt now s.telStatus = true → (o.demand : Int) ≤ s.telUse) :
-    0 ≤ s'.telUse ∧ s'.telUse ≤ s'.totalArrays := sorry
-
-theorem provisionIngest_exact (c c' : Cluster) (demand : Nat) (o : Oid) (pairs : List (Mid × Tid))
-    (hnd : c.available.Nodup) (h : c.provisionIngest demand o = (c', none, pairs)) :
-    pairs.length = demand ∧ pairs.map (·.1) = c.available.take demand ∧
-    c'.ingest = c.ingest ++ c.available.take demand ∧ c'.available = c.available.drop demand ∧
-    pairs.map (·.2) = (List.range demand).map (Tid.ingest o) := sorry
-
-theorem status_monotone (s : Sys) (pid : Nat) (orc : Oracle) (oid : Oid) (o : Obs)
-    (ho : s.obs? oid = some o) :
-    ∃ o', (s.resume pid orc).1.obs? oid = some o' ∧ obsRank o.status ≤ obsRank o'.status ∧
-      o'.duration = o.duration ∧ o'.est = o.est ∧ o'.demand = o.demand := sorry
-
-theorem row_true (s : Sys) (U : List Tid) (hinv : Cluster.Inv s.cl U) (n : Nat) :
-    let r := s.mkRow n
-    r.running = s.cl.running.length ∧
-    r.available = (s.cl.machines.length : Int) - s.cl.running.length ∧
-    r.ingest = (s.cl.running.filter Tid.isIngest).length ∧
-    r.finished = (s.cl.finished.filter (·.2)).length ∧
-    r.provisioned = s.cl.idle.length ∧
-    r.hot = s.buf.hot.cur ∧ r.cold = s.buf.cold.cur ∧
-    r.stored = s.buf.hot.stored.length + s.buf.cold.stored.length ∧
-    r.waiting = (s.obs.filter (·.status = .waiting)).length ∧
-    r.obsFinished = (s.obs.filter (·.status = .finished)).length ∧
-    r.queue = s.queue.length := sorry
-
-theorem row_available_true (s : Sys) (U : List Tid) (hinv : Cluster.Inv s.cl U) (n : Nat)
-    (hp : s.cl.pending = []) :
-    (s.mkRow n).available = (s.cl.available.length : Int) + s.cl.idleAll.length := sorry
-
-theorem rows_only_monitor (s : Sys) (pid : Nat) (orc : Oracle) (p : Proc)
-    (hp : s.proc? pid = some p) (hk : p.k ≠ .monitor) :
-    (s.resume pid orc).1.rows = s.rows := sorry
-
-theorem reach_rows_count (s0 s : Sys) (hw : WFConfig s0) (h : Reach s0 s) :
-    ∃ p, s.proc? 0 = some p ∧ p.k = .monitor ∧ p.alive = true ∧
-      s.rows.length = p.pc ∧ p.wake = (p.pc : Rat) := sorry
-
-theorem events_no_loss (s : Sys) (pid : Nat) (orc : Oracle) (p : Proc) (hp : s.proc? pid = some p)
-    (hk : p.k ≠ .telescope ∧ p.k ≠ .schedLoop) :
-    ∀ e ∈ s.log ++ s.telEvents ++ s.schEvents ++ s.bufEvents,
-      e ∈ (s.resume pid orc).1.log ++ (s.resume pid orc).1.telEvents ++
-        (s.resume pid orc).1.schEvents ++ (s.resume pid orc).1.bufEvents := sorry
-
-theorem events_loop_clear (s : Sys) (pid : Nat) (orc : Oracle) (p : Proc) (hp : s.proc? pid = some p)
-    (hk : p.k = .telescope ∨ p.k = .schedLoop) :
-    ∀ e ∈ s.log ++ (if p.k = .telescope then [] else s.telEvents) ++
-            (if p.k = .schedLoop then [] else s.schEvents) ++ s.bufEvents,
-      e ∈ (s.resume pid orc).1.log ++ (s.resume pid orc).1.telEvents ++
-        (s.resume pid orc).1.schEvents ++ (s.resume pid orc).1.bufEvents := sorry
-
-theorem events_stamped (s : Sys) (pid : Nat) (orc : Oracle) (p : Proc) (hp : s.proc? pid = some p)
-    (hint : p.wake = ((natNow p.wake : Nat) : Rat)) :
-    ∀ e ∈ (s.resume pid orc).1.log ++ (s.resume pid orc).1.telEvents ++
-        (s.resume pid orc).1.schEvents ++ (s.resume pid orc).1.bufEvents,
-      e ∉ s.log ++ s.telEvents ++ s.schEvents ++ s.bufEvents → e.time = natNow p.wake := sorry
-
-theorem finished_after_duration (now : Nat) (s s' : Sys) (oid : Oid) (o : Obs)
-    (ho : s.obs? oid = some o) (h : telescopeVisit now (s, none) oid = (s', none))
-    (hev : (⟨now, oid, .telFinished⟩ : Event) ∈ s'.telEvents ∧ (⟨now, oid, .telFinished⟩ : Event) ∉ s.telEvents) :
-    ∃ a, o.ast = some a ∧ a + o.duration ≤ now ∧ o.status ≠ .finished ∧
-      (s'.obs? oid).map (·.status) = some .finished := sorry
-
-end Sys
-end Topsim
+import TopsimProofs.BlockLemmas2
+import TopsimProofs.BlockLemmas3
+import TopsimProofs.BlockLemmas4
